@@ -26,6 +26,10 @@ def main() -> int:
             print(json.dumps(rep, indent=1))
         mod = load(args.prop.upper())
         check = mod.run(args.tier)
+        if args.tier == "thorough" and not os.environ.get("SA_REPO"):
+            from . import selftest
+
+            selftest.run(check)
         return finish(check)
 
     rc = run_guarded(body)
